@@ -82,6 +82,13 @@ CHECKS = {
             "non-default transport answers at every call index, and a cut (EOF, ECONNRESET, EPIPE, EBADF, EIO) at every byte offset on the read side and after every partial count on the write side.",
             "reliable byte FIFO between the endpoints (sender/receiver interleaving only changes availability, which is what is enumerated); at most two consecutive transient errors per call",
             "E4", "DESIGN.md#c05"),
+    "C11": ("fault_enumeration",
+            "one transport fault per run at every enumerated byte offset / direction / side / error kind over a family of workloads on real Connections + SocketStreams over simulated sockets, plus schedule exploration of close() racing close()",
+            "8 workloads (sync, async, nested callbacks, references both ways, client close, server close, two client threads without time-outs with one parked behind the other, background serving thread); "
+            "faults: read side EOF/ECONNRESET after exactly N bytes, write side EPIPE/ECONNRESET/EBADF after N bytes, N over every byte (thorough) or all header bytes, frame edges and every 29th body byte (quick); "
+            "oracle after one settle step: both sides closed, disconnect hooks exactly once, tables released, second close harmless, every request ended with its value / EOFError / own time-out, no thread left blocked.",
+            "lenient reading of 'becomes closed' (after one further serve(0)); one fault per run; SimOS socket semantics (conformance-tested against the kernel in selftest)",
+            "E1+E4", "DESIGN.md#c11"),
 }
 
 NOT_APPLICABLE = {}
